@@ -438,3 +438,17 @@ Theorem C04_run_no_abort_flat_tables : forall (M : module) (o : options) (B : co
     forall a, fst (run F bld budget (C15Link.to_vm B) fresh_state) <> OAbort a.
 Proof. exact compiled_run_no_abort_unless_check. Qed.
 Print Assumptions C04_run_no_abort_flat_tables.
+
+(* the checks are not vacuous: a corpus program with nested runs (call1 re-enters the VM) passes every check and
+   its run is the checked run; on the cyclic-table program of A-37 chk_store stops the checked VM at the store *)
+From Cao Require Import VmWitness C04VmCheckedWitness.
+Theorem C04_checked_run_nested_ok : forall F bld,
+  fst (run_c F bld nested_budget_program 1000 fresh_state) = OOk /\
+  run F bld 1000 nested_budget_program fresh_state = run_c F bld nested_budget_program 1000 fresh_state.
+Proof. exact checked_run_nested_ok. Qed.
+Print Assumptions C04_checked_run_nested_ok.
+
+Theorem C04_checked_run_cyclic_stops : forall F bld,
+  fst (run_c F bld cyclic_prog 100 fresh_state) = OAbort AUnmodelled.
+Proof. exact checked_run_cyclic_stops. Qed.
+Print Assumptions C04_checked_run_cyclic_stops.
